@@ -104,6 +104,14 @@ def d4(ck: Check) -> None:
         dflt = [n for n in own_walk(f.node) if isinstance(n, ast.Assign) and text(n.targets[0]) == "max_drivers_per_succession_node"]
         if not dflt or not any(text(dflt[0].value) == f"len({nm})" for nm in inner_names):
             probs.append("default size bound is not the size of the (inner) motif")
+        for d_ in dflt:
+            # ... and it stands in for an omitted bound only: 0 is a bound (the empty set or nothing)
+            pc_ = fm.pc(fm.cfgn(d_))
+            na = logic.B("none:max_drivers_per_succession_node")
+            if not (na[1] in logic.atoms(pc_) and logic.equivalent(pc_, na)):
+                probs.append(f"line {d_.lineno}: the size bound is replaced under `{logic.show(pc_)[:80]}`, not exactly when it was "
+                             f"omitted (`is None`): the bound 0 -- only the empty override -- is then treated as 'no bound' and "
+                             f"oversized driver sets are reported")
     # all sizes are enumerated: a driver set of a larger size can be inclusion-minimal next to smaller ones
     for lp_ in ([loops[0]] if loops else []) + [cl]:
         for x in ast.walk(lp_):
